@@ -350,6 +350,17 @@ def c13(k, ctx):
     ctx.tlc_mc("MC_BerEngine", "MC_BerEngine_live.cfg", coverage=False)                       # liveness: termination under weak fairness, all fault modes
     ctx.tlc_mc("MC_BerEngine", "MC_BerEngine_neg.cfg", expect_violation=True)                 # collector keeps a sender + stage panic: blocked in recv (D7)
     ctx.tlc_mc("MC_BerEngine", "MC_BerEngine_neg2.cfg", expect_violation=True)                # join().unwrap() on a panicked worker
+    if ctx.thorough:
+        # extra evidence only: Apalache inductive invariant for the unbounded statistics rule (never changes the exit status)
+        ap = os.path.join(k.SPEC, "apalache")
+        res = {}
+        for label, args in (("init", ["--inv=IndInv", "--length=0", "BerStatsInd.tla"]),
+                            ("step", ["--init=IndInit", "--inv=IndInv", "--length=1", "BerStatsInd.tla"]),
+                            ("neg", ["--init=IndInit", "--inv=IndInv", "--length=1", "BerStatsIndNeg.tla"])):
+            rc, out, dt = k.run(["timeout", "600", "apalache-mc", "check", "--cinit=ConstInit", f"--out-dir={ctx.work}/apalache"] + args, 700, cwd=ap)
+            res[label] = {"exit_ok": "EXITCODE: OK" in out, "wall_s": round(dt, 1)}
+        res["inductive"] = res["init"]["exit_ok"] and res["step"]["exit_ok"] and not res["neg"]["exit_ok"]
+        ctx.extra["apalache"] = res
     ctx.vh("gen", "i2s", timeout=3000)
     recs, rej = ctx.validate_search("Trace_C13")
     ctx.require_events("BerRun")
